@@ -91,6 +91,7 @@ func (o *Out) Tag(id string, kv string) {
 }
 
 func (o *Out) Count(key string) {
+	key = strings.Join(strings.Fields(key), "-") // one token per key in the output stream
 	o.mu.Lock()
 	o.dist[key]++
 	o.mu.Unlock()
